@@ -52,6 +52,9 @@ REVIEWED_DISCARDS = {
 }
 
 
+REVIEWED_PARTIAL = {}
+
+
 def r01_1(res, programs, rid="R01.1"):
     res.rule(rid, "the result of every carry/borrow-returning kernel (all #[must_use] fns of dashu-int and the in-place word kernels) is used at every call site: branch, push, arithmetic, return or a debug_assert_zero! belief — never dropped")
     for P in programs:
@@ -79,7 +82,29 @@ def r01_1(res, programs, rid="R01.1"):
                 callee = carry[r]["p"]
                 ordinal = sum(1 for (b2, t2, f2) in mir.iter_calls(f["mir"]) if b2 < bb and f2 and f2.get("r") == r)
                 key = "%s <- %s #%d" % (f["p"], callee.rsplit("::", 1)[1], ordinal)
-                if dest == 0 or real:
+                all_paths = True
+                if dest != 0 and real and t["t"] is not None:
+                    cfg = mir.cfg_of(f["mir"])
+                    from .c19 import debug_regions
+                    dbg = debug_regions(f["mir"])
+                    reach = cfg.reachable()
+                    # uses inside debug-only code (or pruned in release facts) are stated beliefs
+                    use_blocks = {u[0] for u in real if u[0] in reach and u[0] not in dbg}
+                    if use_blocks:
+                        all_paths = cfg.must_pass(use_blocks, src=t["t"])
+                    else:
+                        beliefs += 1
+                        res.ok(rid, cfgname, key + "|belief", nontrivial=False)
+                        continue
+                if dest != 0 and real and not all_paths:
+                    kname = callee.rsplit("::", 1)[1]
+                    rv = next((why for (cs, kn), why in REVIEWED_PARTIAL.items() if kn == kname and f["p"].endswith(cs)), None)
+                    if rv:
+                        res.ok(rid, cfgname, key + "|reviewed-partial", nontrivial=False)
+                        res.assume("%s: %s reads the result of %s only on some paths — reviewed: %s" % (rid, f["p"], kname, rv))
+                    else:
+                        res.fail(rid, cfgname, key + "|path", "%s reads the carry/borrow returned by %s on some paths only: there is a path to return on which it is silently dropped" % (f["p"], callee), span_loc(t["sp"]))
+                elif dest == 0 or real:
                     macs = mir.span_macros(t["sp"])
                     if "debug_assert_zero" in macs:
                         beliefs += 1
